@@ -49,7 +49,7 @@ def run(ctx):
     for _ in range(n):
         t1, t2 = rand_tree(rng, 6, 1, pabs=0.3), rand_tree(rng, 6, 1, pabs=0.3)
         lo = rng.randint(0, 3)
-        c = {"kind": "lazy", "tree": t1, "tree2": t2, "shape": 7, "op": rng.choice(["and", "or", "xor", "sub", "lshift", "intersection", "union", "prune", "project"]),
+        c = {"kind": "lazy", "tree": t1, "tree2": t2, "shape": 7, "op": rng.choice(["and", "or", "xor", "sub", "lshift", "intersection", "union", "prune", "project", "coitershape", "coiteractiveshape", "coiterrangeshape"]),
              "act_a": rng.choice([None, [lo, rng.randint(lo + 1, 7)]]), "act_b": rng.choice([None, [1, 6]])}
         if c["op"] == "project":
             s = rng.choice([1, 2, -1])
